@@ -369,21 +369,15 @@ func coqTag(t string) string {
 	return "TPlain"
 }
 
-var tmpRoot string
-
 func run(raw json.RawMessage) (hx.Case, error) {
 	var in input
 	if err := hx.UJ(raw, &in); err != nil {
 		return hx.Case{}, err
 	}
-	if tmpRoot == "" {
-		d, err := os.MkdirTemp("", "c35-")
-		if err != nil {
-			return hx.Case{}, err
-		}
-		tmpRoot = d
+	dir, err := os.MkdirTemp("", "c35-")
+	if err != nil {
+		return hx.Case{}, err
 	}
-	dir, _ := os.MkdirTemp(tmpRoot, "case")
 	defer os.RemoveAll(dir)
 	o := execute(in, dir)
 
